@@ -113,6 +113,11 @@ def _(c):
     c.prop('C06', 'C12')
     c.ensures('len(shown()) == old(len(shown()))', 'no_message_line')
     c.ensures('arg != "" or self.display_matcher is old(self.display_matcher)', 'empty_argument_only_shows_the_filter')
+    # C12 wiring (native-only): the new filter is the given matcher accumulated onto the *filter* (not the breakpoint), and the breakpoint is untouched
+    c.ensures('arg == "" or old(expected_selection(arg, self.display_matcher, tuple(self.all_messages))) is None or '
+              'verdicts(self.display_matcher, old(tuple(self.all_messages))) == old(expected_selection(arg, self.display_matcher, tuple(self.all_messages)))',
+              'accumulates_onto_the_filter', native_only=True)
+    c.ensures('self.stop_matcher is old(self.stop_matcher)', 'breakpoint_untouched', native_only=True)
     c.modifies('self.display_matcher', 'trace', 'new', *_MATCHER_FIELDS)
     c.native_gen(_gen_cmd(_MT))
 
@@ -122,6 +127,10 @@ def _(c):
     c.prop('C10', 'C12')
     c.ensures('len(shown()) == old(len(shown()))', 'no_message_line')
     c.ensures('len(ui_trace()) == old(len(ui_trace()))', 'no_ui_request')
+    c.ensures('arg == "" or old(expected_selection(arg, self.stop_matcher, tuple(self.all_messages))) is None or '
+              'verdicts(self.stop_matcher, old(tuple(self.all_messages))) == old(expected_selection(arg, self.stop_matcher, tuple(self.all_messages)))',
+              'accumulates_onto_the_breakpoint', native_only=True)
+    c.ensures('self.display_matcher is old(self.display_matcher)', 'filter_untouched', native_only=True)
     c.ensures('arg != "" or self.stop_matcher is old(self.stop_matcher)', 'empty_argument_only_shows_the_breakpoint')
     c.modifies('self.stop_matcher', 'trace', 'new', *_MATCHER_FIELDS)
     c.native_gen(_gen_cmd(_MT))
